@@ -375,6 +375,47 @@ type Report struct {
 	Matrix      map[string]map[string]int
 	SelfTest    []map[string]any
 	baseObls    int
+	decisions   []decision
+}
+
+// decision: a clause decided for a construct by partial evaluation (P13) — a failed or undecided shape obligation of
+// the same clause and construct is then a limitation of the shape recogniser, not a finding.
+type decision struct {
+	prefixes []string
+	match    func(key string) bool
+	why      string
+}
+
+// Decide registers a conclusive positive verdict of the partial evaluator for the obligations whose key starts with
+// one of the prefixes (an include prefix such as "C10.record/" may precede it) and satisfies match.
+func (r *Report) Decide(prefixes []string, match func(key string) bool, why string) {
+	r.decisions = append(r.decisions, decision{prefixes, match, why})
+}
+
+func (r *Report) applyDecisions() {
+	for _, ob := range r.Obls {
+		if ob.Status != Violated && ob.Status != Undecided {
+			continue
+		}
+		for _, d := range r.decisions {
+			hit := false
+			for _, p := range d.prefixes {
+				if strings.HasPrefix(ob.Key, p) || strings.Contains(ob.Key, "/"+p) {
+					hit = true
+				}
+			}
+			if hit && (d.match == nil || d.match(ob.Key)) {
+				if ob.Extra == nil {
+					ob.Extra = map[string]any{}
+				}
+				ob.Extra["shape_rule_said"] = string(ob.Status) + ": " + ob.Detail
+				ob.Status = Discharged
+				ob.Detail = "decided by partial evaluation (" + d.why + "); the shape rule does not recognise this form of the code"
+				r.Count("decided_by_evaluation", 1)
+				break
+			}
+		}
+	}
 }
 
 func newReport(prop, tier string) *Report {
@@ -482,6 +523,7 @@ func (r *Report) finish(o finishOpts) int {
 		fmt.Printf("FAIL  %s.internal: cannot read known_findings.json: %v\n", r.Prop, err)
 		r.Undecided(r.Prop+".internal:known-findings", "", "cannot read known_findings.json: %v", err)
 	}
+	r.applyDecisions()
 	sort.SliceStable(r.Obls, func(i, j int) bool { return r.Obls[i].Key < r.Obls[j].Key })
 	nViol, nUndec, nKnown, nOK, nNontriv := 0, 0, 0, 0, 0
 	var failing []*Obligation
